@@ -38,7 +38,7 @@ CHECKS = {
              "FLOAT_ACCURACY) bounded per request, backflow part of the reply and removed from the in-record; the "
              "alternative queue arc inside queue tanks loses nothing over any number of close-outs. Refuted part "
              "(sub-FLOAT_ACCURACY pushes swallowed with their pollutant load) is a recorded known finding. Tie: exact "
-             "operation-sequence correspondence of the hand-written models; implementation-side ledger monitor.",
+             "operation-sequence correspondence of the hand-written models; implementation-side ledger monitor. Every queue tank, decaying or not, satisfies declared contents = arrived + in transit + decay pending report in every reachable state (DecayQTank.v).",
         design="5/C02", tech="Coq proof (induction over operation lists, arbitrary end-node oracle) over hand-written models + exact-rational correspondence",
         note=NOTE + "Scope: arcs as components (all eight classes through Arc/QueueArc/AltQueueArc models; DecayArcAlt only inside DecayQueueTank); model-level runs are monitored by C01/C03 once built."),
     "C04": dict(
@@ -56,7 +56,7 @@ CHECKS = {
              "flow_in is lowered only by a timestep end; in EVERY tank state an unforced push yields level <= "
              "max(capacity, level before) with entered + returned = offer; queue tanks: the limited level includes "
              "water still queued (storage = arrived + buckets is an invariant); pulls, evaporation and pollutant pulls "
-             "take at most what is there. Tie: exact correspondence + direct capacity monitor.",
+             "take at most what is there. Tie: exact correspondence + direct capacity monitor. The thresholds hard-coded in the models are the constants of the tree under test (T4).",
         design="5/C05", tech="Coq proof (invariants by induction over operation lists) over hand-written models + exact-rational correspondence",
         note=NOTE + "Arc-level force=True (used nowhere in the library) is outside the arc clauses: a forced over-capacity push makes the spare capacity negative."),
     "C06": dict(
@@ -109,7 +109,7 @@ CHECKS = {
              "by zero when all preferences are positive; store operations have no error case. Whole-model totality is "
              "checked by a boundary-stream monitor (all-zero / dry-start / bursty forcing, zero demand, empty and full "
              "stores; exact run: any exception; float run: non-finite scan). Three genuine defects found this way were "
-             "repaired with fix: commits (see known_findings.json).",
+             "repaired with fix: commits (see known_findings.json). Every division site of the library (table regenerated from the source, T5) is one of the reviewed sites with the same divisor and guards.",
         design="5/C12", tech="Coq proof of division-site lemmas + boundary-stream whole-model monitor (partial)",
         note=NOTE),
     "C20": dict(
